@@ -30,6 +30,10 @@ func runC20(c *vf.Case) {
 	maxBytes := []int{16, 100, 256, 1000, 1500, 65536}[r.Intn(6)] // powers of two and others
 	offsetterOnly := r.Chance(1, 5)
 	neverEmpty := r.Bool()
+	long := r.Chance(1, 80)
+	if long {
+		maxSlots, maxBytes, neverEmpty = 64, 65536, true
+	}
 	b := sonic.NewByteBuffer()
 	var seqr *sonic.SlotSequencer
 	var offs *sonic.SlotOffsetter
@@ -80,6 +84,10 @@ func runC20(c *vf.Case) {
 	if c.Tier == "quick" {
 		steps = r.Range(50, 600)
 	}
+	if long {
+		steps = 14000 // more than a thousand out-of-order pops between two drains, then the index is drained and used again
+		c.Count("long_never_empty_histories", 1)
+	}
 	for step := 0; step < steps && !c.Failed(); step++ {
 		op := r.Intn(10)
 		if neverEmpty && len(parked) <= 1 && op >= 5 && op <= 8 {
@@ -101,7 +109,7 @@ func runC20(c *vf.Case) {
 			shape.WriteString("D")
 			continue
 		}
-		if len(parked) > 0 && r.Chance(1, 40) {
+		if len(parked) > 0 && !long && r.Chance(1, 40) {
 			// the owner gives up on what is parked: Reset of the index plus DiscardAll of the save area, in the
 			// middle of a history (slots popped out of order since the last drain); what follows starts from scratch
 			c.Logf("Reset() + DiscardAll() with %d packets (%d bytes) parked, %d bytes discarded since the last drain", len(parked), parkedBytes, discardedSinceReset)
